@@ -211,6 +211,14 @@ func allChecks() []CheckSpec {
 						c.MaxPaths = 2000000
 						c.MaxWallS = 900
 					}},
+				{Fn: "verifC15CloseWithLateClient", Lemma: "schedule exploration over the real accept loop, handleConn, createConn and Close: a client is connected but silent; Close starts; the client's valid first frame arrives while Close is in progress: once Close has returned nothing is attached to the closed mux and the client's connection is closed",
+					Bounds: "one client, frame released 0..2 fair hand-overs after Close started, at most 1 (thorough 2) preemptions", MustReach: []string{"frame-arrived-while-closing", "done"},
+					Cfg: func(c *HarnessCfg, tier int) {
+						c.GoPolicy = "explore"
+						c.ContextBound = 1 + tier
+						c.MaxPaths = 2000000
+						c.MaxWallS = 900
+					}},
 			},
 			Assumptions: append([]string{
 				"sequential: the accept loop, per-connection reader and close watchers are scheduled cooperatively (a blocked goroutine yields); time.AfterFunc callbacks fire only when the harness fires them",
